@@ -36,6 +36,24 @@ def resolve (c : Ctx) : Accessor → QName
   | .clark ns n => (ns, n)
   | .pair ns n => (ns, n)
 
+/-- `deconstruct_clark_notation` (`_delb/names.py`): `"{ns}local"` is split at the FIRST `}` into
+    `(some ns, local)`, a name that does not start with `{` is `(none, name)`; `none`: Python raises
+    (an opening brace without a closing one) -/
+def deconstructClark (name : String) : Option (Option String × String) :=
+  match name.toList with
+  | '{' :: rest =>
+    match rest.dropWhile (· != '}') with
+    | '}' :: loc => some (some (String.ofList (rest.takeWhile (· != '}'))), String.ofList loc)
+    | _ => none
+  | _ => some (none, name)
+
+/-- a string given as accessor: Clark notation or a plain local name -/
+def accessorOfString (name : String) : Option Accessor :=
+  match deconstructClark name with
+  | some (some ns, l) => some (.clark ns l)
+  | some (none, l) => some (.local_ l)
+  | none => none
+
 /-- a Clark key of the store: `none` namespace = plain key -/
 abbrev Key := Option String × String
 
